@@ -1104,12 +1104,19 @@ func (c *Context) Exp(d, x *Decimal) (Condition, error) {
 	p := int64(cp) + int64(t) + 2
 
 	// Stage 3
-	rf, err := ra.Float64()
+	// log10(r) is taken from r's decimal exponent and leading digits: r
+	// itself may lie below the range of a float64 (Exp(1E-330) at Precision
+	// 400), where pf/rf would be infinite and the series get no terms.
+	var rm Decimal
+	rm.Set(&ra)
+	radj := int64(rm.Exponent) + rm.NumDigits() - 1
+	rm.Exponent -= int32(radj)
+	mf, err := rm.Float64()
 	if err != nil {
 		return 0, fmt.Errorf("r.Float64: %w", err)
 	}
 	pf := float64(p)
-	nf := math.Ceil((1.435*pf - 1.182) / math.Log10(pf/rf))
+	nf := math.Ceil((1.435*pf - 1.182) / (math.Log10(pf) - math.Log10(mf) - float64(radj)))
 	if nf > 1000 || math.IsNaN(nf) {
 		return 0, errors.New("too many iterations")
 	}
